@@ -26,8 +26,8 @@ type histProfile struct {
 func profileFor(prop string) histProfile {
 	switch prop {
 	case "C07":
-		return histProfile{wLint: 30, wRepeat: 0, wFilter: 30, wSetCfg: 3, wRead: 2, wPattern: 35, wDefaultCfg: 0,
-			cfgClasses: []string{"neutral", "option"}, cfgMin: 0, cfgMax: 1, mutShare: []float64{0, 0.1, 0.3}, crlP: 0.3, ocspP: 0.15, errFilterP: 0.03, synthP: 0.3}
+		return histProfile{wLint: 30, wRepeat: 0, wFilter: 30, wSetCfg: 8, wRead: 2, wPattern: 35, wDefaultCfg: 0,
+			cfgClasses: []string{"neutral", "option", "option", "illtyped"}, cfgMin: 0, cfgMax: 2, mutShare: []float64{0, 0.1, 0.3}, crlP: 0.3, ocspP: 0.15, errFilterP: 0.03, synthP: 0.3}
 	case "C08":
 		return histProfile{wLint: 10, wRepeat: 0, wFilter: 45, wSetCfg: 12, wRead: 25, wPattern: 8, wDefaultCfg: 0,
 			cfgClasses: []string{"neutral", "option", "empty"}, cfgMin: 1, cfgMax: 3, mutShare: []float64{0}, crlP: 0.3, ocspP: 0.2, errFilterP: 0.25}
